@@ -1002,6 +1002,9 @@ func (eng *Engine) VerifyFunc(fn *ssa.Function, opts ExecOpts) (rep *FuncReport)
 			g := fx.evalClause(fr, env, rq, "requires")
 			st.pc = c.And(st.pc, g)
 		}
+		for _, sp := range fc.Splits {
+			fx.splits = append(fx.splits, fx.evalClause(fr, env, sp, "split"))
+		}
 		// vacuity guard: the precondition must be satisfiable
 		if len(fc.Requires) > 0 {
 			o := &Obligation{Name: key + "/vacuity/requires", Kind: "cover", Cover: true, PC: st.pc, Goal: c.False(),
